@@ -32,6 +32,8 @@ SPEC['explanation'] += ' T9.whole: every pass of the block loop of reverse_iter_
 SPEC['decided'] += ['block loop examines the whole buffer']
 SPEC['explanation'] += ' T10.empty: without line breaks only a non-empty text is yielded. T7.defer: reverse_iter_lines emits lines only from a buffer established not to start at a line break. T9.decode: inside the block loop only complete lines are decoded. T9.sync: a descriptor-level size query is preceded by a flush.'
 SPEC['decided'] += ['empty text yields nothing', 'deferred emission guard', 'decode only complete lines', 'flush before fstat']
+SPEC['explanation'] += ' T19t: JSONLIterator recognises an omitted rel_seek by identity (0.0 is a position).'
+SPEC['decided'] += ['rel_seek 0.0 is data']
 MANIFEST = {
     'technique': 'regex-AST extraction of the line-ending alternation compared with a frozen boundary table; delegation and guard-shape checks',
     'text': ('Decides that the set of recognised line breaks is exactly right (the \\x2028 typo class of defect), that '
@@ -217,6 +219,8 @@ def run(ctx):
                     ok = True
                 if isinstance(e, ast.Compare) and len(e.ops) == 1:
                     l, r, opn = txt(e.left), e.comparators[0], type(e.ops[0]).__name__
+                    if txt(r) == first and opn in ('Eq', 'NotEq'):          # `b'' == lines[0]`
+                        l, r = first, e.left
                     if l == first and opn in ('Eq', 'NotEq'):
                         try:
                             if fo.fold(r) in (b'', ''):
